@@ -26,7 +26,8 @@
 //! caches and recoder positions; the IR handed to the callback (and the returned recoder position, or `panic`)
 //! against `BV.Recoder.processCommandQueue`.  Dictionary-word expansions are recorded answers of the real
 //! `TransformDictionaryWord` on the real dictionary (field `words`), the two small dictionary tables are compared by
-//! `recoder tables`.
+//! `recoder tables`.  `recoder stride <n> <withLits>`: the real `StrideEval` (epochs, score sizing, `choose_stride`) for every
+//! block count 0..260 against `BV.Recoder.stridePass`.
 //! Line format:
 //!   recoder pcq <variant> <lgwin> <npostfix> <ndirect> <hedq> <nbe> <dc0,dc1,dc2,dc3> <mask> <pos> <len> <ringhex>
 //!               <cmds ins:copyfield:extra:cmdprefix:distprefix;...|-> <btl> <btc> <btd> <words len:offset:hex|!,...|->
@@ -650,6 +651,38 @@ fn gen_crafted(rng: &mut Rng) -> Crafted {
     Crafted { variant, lgwin, npostfix, ndirect, hedq, nbe, dc, mask, pos, len, ring, cmds, btl, btc, btd }
 }
 
+/// `recoder stride <n> <withLits>`: the REAL `StrideEval` after `n` `BlockSwitchLiteral` pushes (types cycling 0..3), each
+/// optionally followed by a 3-byte literal, then `choose_stride` on `num_types()` slots: `ok <num_types>` | `panic`
+fn stride_answer(n: usize, with_lits: bool) -> String {
+    use brotli::enc::interface::{CommandProcessor, LiteralBlockSwitch, LiteralCommand, LiteralPredictionModeNibble, PredictionModeContextMap, FeatureFlagSliceType};
+    use brotli::InputReference;
+    let r = catch_unwind(AssertUnwindSafe(|| {
+        let data: Vec<u8> = (0..1024usize).map(|i| (i * 7) as u8).collect();   // the interpreter reads input[local_byte_offset - k]: 3 bytes per literal pushed
+        let input = InputPair(InputReference { data: &data[..], orig_offset: 0 }, InputReference { data: &[], orig_offset: data.len() });
+        let mut lcm = [0u8; 0];
+        let mut dcm = vec![0u8; PredictionModeContextMap::<InputReference>::size_of_combined_array(0)];
+        let mut pm = PredictionModeContextMap::<InputReferenceMut> {
+            literal_context_map: InputReferenceMut { data: &mut lcm[..], orig_offset: 0 },
+            predmode_speed_and_distance_context_map: InputReferenceMut { data: &mut dcm[..], orig_offset: 0 },
+        };
+        pm.set_literal_prediction_mode(LiteralPredictionModeNibble(0));
+        let mut alloc = EncAlloc::default();
+        let params = base_params(9, 18);
+        let mut se = brotli::enc::stride_eval::StrideEval::<EncAlloc>::new(&mut alloc, input, &pm, &params);
+        for k in 0..n {
+            se.push(IrCmd::BlockSwitchLiteral(LiteralBlockSwitch::new((k % 4) as u8, 0)));
+            if with_lits {
+                se.push(IrCmd::Literal(LiteralCommand { data: InputReference { data: &data[0..3], orig_offset: 0 }, prob: FeatureFlagSliceType::<InputReference>::default(), high_entropy: false }));
+            }
+        }
+        let nt = se.num_types();
+        let mut strides = vec![0u8; nt];
+        se.choose_stride(&mut strides[..]);
+        nt
+    }));
+    match r { Ok(nt) => format!("ok {}", nt), Err(_) => "panic".to_string() }
+}
+
 fn tables_answer() -> String {
     format!("bits={} offsets={} dictlen={}", kBrotliDictionarySizeBitsByLength.iter().map(|x| x.to_string()).collect::<Vec<_>>().join(","),
         kBrotliDictionaryOffsetsByLength.iter().map(|x| x.to_string()).collect::<Vec<_>>().join(","), kBrotliDictionary.len())
@@ -690,6 +723,9 @@ pub fn run_cmd(args: &Args) {
 
     // ---- correspondence
     corr.case("recoder tables", &tables_answer());
+    // StrideEval bookkeeping for every block count 0..=260 (score array 32 -> 4096), with and without literals
+    for n in 0..=260usize { for wl in [false, true] { corr.case(&format!("recoder stride {} {}", n, wl as u8), &stride_answer(n, wl)); } }
+    rep.add("corr.stride_lines", 522);
     if let Ok(rd) = std::fs::read_dir("/verif/corpus/recoder") {
         let mut files: Vec<_> = rd.filter_map(|e| e.ok()).map(|e| e.path()).collect();
         files.sort();
